@@ -5,7 +5,7 @@
    service and the lock set; c08_flow_limit_strands is that history on the model. *)
 From Coq Require Import String List NArith Lia Bool.
 From Ax Require Import Lib.Bytes Lib.Mvx Lib.SolAbi Lib.Keccak Model.Check Model.Env Model.Gateway Model.TokenManager Model.Its
-     Proofs.GatewayMsgs Proofs.TMFacts Proofs.ItsFacts Proofs.ItsWorld Proofs.ItsMore Gen.Generated.
+     Proofs.GatewayMsgs Proofs.TMFacts Proofs.ItsFacts Proofs.ItsWorld Proofs.ItsMore Proofs.ItsLocks Gen.Generated.
 Import ListNotations.
 Open Scope N_scope.
 
@@ -50,10 +50,34 @@ Section C08.
   Theorem c08_no_double : forall w c orig chain id src ph payload,
     mst (iw_gw w) (chain, id) = Some MExecuted -> process_transfer H w c orig chain id src ph payload = None.
   Proof. exact (process_transfer_after_executed H). Qed.
+
+  (* ---- world level, every history: single-shot ----
+     LockInv w: (1) every delivery in flight (a pending PTransfer entry, whatever its stage) has its message's lock set,
+     and (2) no two deliveries in flight belong to the same (source chain, message id).
+     It holds in every world without pending work and is preserved by EVERY operation of the ITS world -- all 25 kinds,
+     all callers, the environment's delivery / callback / lookup / issuance steps in any order -- hence in every
+     reachable world: at any time at most one delivery of a message is in flight. *)
+  Variable verify : bytes -> bytes -> bytes -> bool.
+  Theorem c08_inv_init : forall w, iw_pend w = [] -> LockInv w.
+  Proof. intros w E. unfold LockInv. rewrite E. split; [intros ? ? [] | constructor]. Qed.
+  Theorem c08_inv_step : forall w o, LockInv w -> LockInv (fst (istep H verify w o)).
+  Proof. exact (istep_lockinv H verify). Qed.
+  Theorem c08_inv_reachable : forall ops w, LockInv w -> LockInv (irun H verify w ops).
+  Proof. exact (irun_lockinv H verify). Qed.
+  (* readable consequences *)
+  Theorem c08_in_flight_locked : forall w p chain id src ph tid tok amt dest oc os data, LockInv w -> In p (iw_pend w) ->
+    ip_kind p = PTransfer chain id src ph tid tok amt dest oc os data -> lock_of (iw_its w) chain id <> 0.
+  Proof.
+    intros w p chain id src ph tid tok amt dest oc os data [A _] Hin K. apply A. unfold tkeys. apply in_flat_map. exists p.
+    split; [exact Hin | unfold tkey; rewrite K; left; reflexivity].
+  Qed.
 End C08.
 Print Assumptions c08_start.
 Print Assumptions c08_callback.
 Print Assumptions c08_lock_excludes.
+Print Assumptions c08_inv_step.
+Print Assumptions c08_inv_reachable.
+Print Assumptions c08_in_flight_locked.
 
 (* the known finding, on the model: a failing failure-callback leaves 10 tokens in the service and the lock set *)
 Example c08_refuted_flow_limit :
@@ -62,3 +86,10 @@ Example c08_refuted_flow_limit :
   io_ok (snd r) = false /\ bal (iw_led (fst r)) Findings.self Findings.tok = 10 /\ lock_of (iw_its (fst r)) (str "ethereum") (str "id-1") = 1.
 Proof. destruct Findings.c08_flow_limit_strands as (A & B & C & _). auto. Qed.
 Check c08_callback.
+Check c08_inv_reachable.
+
+(* non-vacuity: the world of the known-finding history (one delivery in flight, lock set) satisfies the invariant *)
+Example c08_inv_nonvacuous :
+  let w := irun keccak256 Findings.vf Findings.w08 Findings.h08 in
+  iw_pend w <> [] /\ LockInv w.
+Proof. split; [vm_compute; discriminate|]. apply c08_inv_reachable. apply c08_inv_init. reflexivity. Qed.
